@@ -368,6 +368,9 @@ class Explorer:
     # ----------------------------------------------------------- operands
     def const_val(self, c):
         if "fn" in c:
+            res = c["fn"].get("res")
+            if res and res.get("path") in self.F.fns:
+                return ("fn", res["path"])
             return ("fn", c["fn"]["path"])
         if "variant" in c:
             ty = c["ty"].split("<")[0]
@@ -934,9 +937,20 @@ class Explorer:
         args = [self.operand(st, fr, a) for a in t["args"]]
         dest, target = t["dest"], t["t"]
         if info is None:
-            # call through a function pointer / closure value
-            self.opaque_call(st, fr, "<indirect>", args, dest, site, None)
-            return self.after_call(st, fr, target)
+            # call through a function pointer: when the pointer's value is known on this path (a reified fn item or a
+            # non-capturing closure coerced to `fn(..)`, passed down by an inlined caller), the call goes to that body
+            fv = self.operand(st, fr, t["func"]) if isinstance(t["func"], dict) and ("move" in t["func"] or "copy" in t["func"]) else ("?",)
+            if fv[0] == "ref":
+                fv = self.read_loc(st, fv[1], fv[2])
+            if fv[0] == "closure" and fv[1] in self.F.fns and len(stack) < 12:
+                return self.enter(st, stack, fr, self.F.fns[fv[1]], [fv] + args, dest, target, None, closure=True)
+            if fv[0] == "fn" and fv[1] in self.F.fns and len(stack) < 12:
+                cf = self.F.fns[fv[1]]
+                info = {"path": fv[1], "name": cf.get("name"), "targs": [], "local": True, "impl_self": cf.get("impl_self", "")}
+                path = fv[1]
+            else:
+                self.opaque_call(st, fr, "<indirect>", args, dest, site, None)
+                return self.after_call(st, fr, target)
         name = info.get("name")
         if info["path"] == "std::convert::Into::into" and len(info.get("targs", [])) == 2:
             alt = self.local_from(info["targs"][0], info["targs"][1])
